@@ -129,10 +129,12 @@ def spoiled_by(case, qd, present):
     m, n = case["m"], case["n"]
     t = case["tree"]
     if q[0] == "two" and q[1][0] == "list" and q[2][0] == "list":
-        if (len(q[1][1]) == 0 or len(q[2][1]) == 0):
-            return "getitem_empty_lists" if "getitem_empty_lists" in present else None
+        if (len(q[1][1]) == 0 or len(q[2][1]) == 0) and "getitem_empty_lists" in present:
+            return "getitem_empty_lists"
         if len(q[1][1]) != len(q[2][1]):
             return "getitem_list_zip_truncates" if "getitem_list_zip_truncates" in present else None
+        if len(q[1][1]) == 0:
+            return None
         if "getitem_list_uses_dotA" in present and t["k"] not in ("Dense", "Tri", "Sparse"):
             return "getitem_list_uses_dotA"
         return None
@@ -296,6 +298,13 @@ def make_queries(rnd, case, pools, present, nslice):
         add(["two", ["list", li], ["list", lj]])
     if rnd.random() < 0.15:
         add(["two", ["list", []], ["list", []]])
+    # lists of different lengths: numpy broadcasts a list of length 1, refuses other mismatches (thin while zip truncates)
+    if rnd.random() < (0.12 if "getitem_list_zip_truncates" in present else 0.6):
+        k = rnd.randint(0, 3)
+        li, lj = [rnd.randint(-m, m - 1) for _ in range(k)], [rnd.randint(-n, n - 1) for _ in range(rnd.choice([1, 1, 1, k + 1, 2]))]
+        if rnd.random() < 0.5:
+            li, lj = [rnd.randint(-m, m - 1) for _ in range(len(lj))], [rnd.randint(-n, n - 1) for _ in range(len(li))]
+        add(["two", ["list", li], ["list", lj]])
     # forms outside the statement: must be refused (or follow the cascade) exactly as the model says
     if rnd.random() < 0.5:
         add(rnd.choice([["other", rnd.choice(L.OTHERS)], ["one", ["list", rand_idx_list(rnd, min(m, n), 1, 3, 0.0)]],
@@ -498,7 +507,8 @@ def run(ctx):
     fnd = findings()
     present = {f["flag"] for f in fnd if f["present"]}
     fl = dict(row="getitem_row_nonsquare" in present, dotA="getitem_list_uses_dotA" in present,
-              cpu="sliced_index_array_cpu" in present, empty="getitem_empty_lists" in present)
+              cpu="sliced_index_array_cpu" in present, empty="getitem_empty_lists" in present,
+              zip="getitem_list_zip_truncates" in present)
     mism = []
     # (1) PySlice.indices against CPython on the whole exhaustive domain (n <= 5) + random larger ones
     sl = slice_entries(ctx.rng, ctx.budget(1500, 60000))
